@@ -32,6 +32,7 @@ class World:
         self.cluster = None
         self.faults = None
         self.last_fault_effect = self.t0  # virtual time the last fault effect ended
+        self.fault_windows = []  # (kind, t_start, t_end): when each fired fault was in effect
         random.seed(seed)
 
     # ------------------------------------------------------------------ misc
@@ -45,6 +46,7 @@ class World:
     def count_fault(self, kind, effect_until=None):
         self.fault_counts[kind] += 1
         t = self.loop.time() if effect_until is None else effect_until
+        self.fault_windows.append((kind, self.loop.time(), t))
         if t > self.last_fault_effect:
             self.last_fault_effect = t
 
